@@ -952,7 +952,9 @@ impl BufferParser for Parser {
                         self.state = EngineState::Default;
 
                         if let Some(number) = self.parsed_numbers.first() {
-                            for _ in 0..*number {
+                            // more blanks than the screen is wide push everything off the line: clamp the count
+                            let number = (*number).min(buf.terminal_state.get_width());
+                            for _ in 0..number {
                                 caret.ins(buf, current_layer);
                             }
                         } else {
@@ -1038,7 +1040,8 @@ impl BufferParser for Parser {
                                 ).into());
                             }
                             if let Some(number) = self.parsed_numbers.first() {
-                                for _ in 0..*number {
+                                let number = (*number).min(buf.terminal_state.get_width());
+                                for _ in 0..number {
                                     caret.del(buf,current_layer);
                                 }
                             } else {
@@ -1062,7 +1065,8 @@ impl BufferParser for Parser {
                                 ).into());
                             }
                             if let Some(number) = self.parsed_numbers.first() {
-                                for _ in 0..*number {
+                                let number = (*number).min(buf.terminal_state.get_height());
+                                for _ in 0..number {
                                     buf.insert_terminal_line(current_layer,caret.pos.y);
                                 }
                             } else {
@@ -1273,6 +1277,8 @@ impl BufferParser for Parser {
                         } else {
                             1
                         };
+                        // scrolling by more rows than the screen has only clears the region
+                        let num = num.min(buf.terminal_state.get_height());
                         (0..num).for_each(|_| buf.scroll_up(current_layer));
                         return Ok(CallbackAction::Update);
                     }
@@ -1284,6 +1290,7 @@ impl BufferParser for Parser {
                         } else {
                             1
                         };
+                        let num = num.min(buf.terminal_state.get_height());
                         (0..num).for_each(|_| buf.scroll_down(current_layer));
                         return Ok(CallbackAction::Update);
                     }
@@ -1296,6 +1303,8 @@ impl BufferParser for Parser {
                         } else {
                             1
                         };
+                        // a full screen of repeats already shows nothing but the repeated character
+                        let num = num.min(buf.terminal_state.get_width() * buf.terminal_state.get_height());
                         let ch = AttributedChar::new(self.last_char, caret.get_attribute());
                         (0..num).for_each(|_| buf.print_char(current_layer, caret, ch));
                         return Ok(CallbackAction::Update);
@@ -1343,6 +1352,7 @@ impl BufferParser for Parser {
                         } else {
                             1
                         };
+                        let num = num.min(buf.terminal_state.get_width());
                         (0..num).for_each(|_| caret.set_x_position(buf.terminal_state.next_tab_stop(caret.get_position().x)));
                         return Ok(CallbackAction::Update);
                     }
@@ -1360,6 +1370,7 @@ impl BufferParser for Parser {
                         } else {
                             1
                         };
+                        let num = num.min(buf.terminal_state.get_width());
                         (0..num).for_each(|_| caret.set_x_position(buf.terminal_state.prev_tab_stop(caret.get_position().x)));
                         return Ok(CallbackAction::Update);
                     }
